@@ -13,7 +13,7 @@ def mk_case(pg):
     for p, items in pg.files.items():
         files[p] = {'contents': [ppref.render(items)], 'exists': pg.exists.get(p, True)}
     sym = {n: ppfamily.ALT_BODIES[n] for n in pg.names}
-    return PPCase(text, path='top.sv', sym_defines=sym, files=files, include_paths=(), strip=False, ignore=False,
+    return PPCase(text, path='top.sv', sym_defines=sym, files=files, include_paths=(), strip=getattr(pg, 'strip', False), ignore=False,
                   resolve_depth=pg.rd, include_depth=pg.idp, label=pg.label)
 
 
